@@ -235,3 +235,67 @@ func VHFillLarge() {
 		vCover("fill large: > 2048 elements")
 	}
 }
+
+// ---- element types other than int ----
+// The helpers are generic: a struct with an IsZero method that disagrees with the zero value,
+// pointers, strings and interface values must be spliced, filled and copied as opaque values.
+
+type c12money struct {
+	amount   int
+	currency int
+}
+
+// IsZero reports "no money" whatever the currency: a non-zero value may be IsZero.
+func (m c12money) IsZero() bool { return m.amount == 0 }
+
+func VHElemTypes() {
+	n := 1 + vChoose("n", vParam("NE"))
+	a, c := vInt("amount"), vInt("currency")
+	v := c12money{a, c}
+	// Fill / Repeat with a struct value
+	s := make([]c12money, n, n+1)
+	for i := range s {
+		s[i] = c12money{vInt("a0"), vInt("c0")}
+	}
+	spare := s[:n+1]
+	spare[n] = c12money{7, 7}
+	Fill(s, v)
+	for i := range s {
+		vAssert(s[i] == v, "Fill (struct with an IsZero method): every element equals the value, field by field")
+	}
+	vAssert(spare[n] == c12money{7, 7}, "Fill (struct): nothing beyond len is written")
+	r := Repeat(v, n)
+	vAssert(len(r) == n, "Repeat (struct): length is count")
+	for i := range r {
+		vAssert(r[i] == v, "Repeat (struct with an IsZero method): every element equals the value")
+	}
+	// pointers: Fill stores the very pointer, Insert/Remove move pointers
+	p, q := &c12money{a, c}, &c12money{}
+	ps := make([]*c12money, n)
+	Fill(ps, p)
+	for i := range ps {
+		vAssert(ps[i] == p, "Fill (pointer): every element is the given pointer")
+	}
+	Insert(&ps, 0, q)
+	vAssert(len(ps) == n+1 && ps[0] == q && ps[1] == p, "Insert (pointer): spliced in front")
+	Remove(&ps, 0)
+	vAssert(len(ps) == n && ps[0] == p, "Remove (pointer): spliced out")
+	// interface values holding such a struct
+	as := make([]any, n)
+	Fill(as, any(v))
+	for i := range as {
+		vAssert(as[i] == any(v), "Fill (interface): every element equals the value")
+	}
+	cl := Clone(as)
+	vAssert(len(cl) == n && cl[0] == any(v), "Clone (interface): same contents")
+	g := Grow(s, 2)
+	vAssert(len(g) == n+2 && g[n] == c12money{} && g[n+1] == c12money{}, "Grow (struct): appends zero values")
+	for i := 0; i < n; i++ {
+		vAssert(g[i] == v, "Grow (struct): keeps the contents")
+	}
+	Reverse(g)
+	vAssert(g[0] == c12money{} && g[len(g)-1] == v, "Reverse (struct)")
+	cc := Concat(s, r)
+	vAssert(len(cc) == 2*n && cc[0] == v && cc[2*n-1] == v, "Concat (struct)")
+	vCover("elem types done")
+}
